@@ -156,6 +156,9 @@ def run_default_start(rep, tier, seed):
     results = []
     for k in range(40 if tier == "thorough" else 10):
         case = C.gen_case(g, "convex_qp", {"iteration_limit": 30}, scaling=False)
+        if k % 2 == 1:
+            spec = Spec.from_json(case["spec"])        # ... also under a (custom power-of-two) scaling
+            case["sc"] = {"kind": "custom", "vw": g.weights(spec.n, 3), "cw": g.weights(spec.m, 3), "ow": g.rng.randint(-2, 2)}
         case["x0"], case["y0"] = None, None
         rec = C.run(case)
         msg = C.oracle_C05(case, rec)
